@@ -8,7 +8,7 @@
 use crate::codec::{Cur, Tok};
 use crate::fam_hist::RecProvider;
 use databroker::broker::{
-    ActuationChange, DataBroker, Datapoint, EntryUpdate, EntryUpdates, Field,
+    ActuationChange, DataBroker, Datapoint, EntryUpdate, EntryUpdates, Field, QueryResponse,
 };
 use databroker::permissions::ALLOW_ALL;
 use databroker::types::{ChangeType, DataType, DataValue, EntryType};
@@ -27,6 +27,7 @@ use std::time::SystemTime;
 
 type Task = Pin<Box<dyn Future<Output = Tok>>>;
 type SubStream = Pin<Box<dyn Stream<Item = EntryUpdates>>>;
+type QStream = Pin<Box<dyn Stream<Item = QueryResponse>>>;
 
 fn block_on<T>(mut f: Pin<Box<dyn Future<Output = T> + '_>>) -> T {
     let w = noop_waker();
@@ -178,12 +179,15 @@ enum Outcome {
 struct Scenario {
     tasks: Vec<Task>,
     streams: Rc<RefCell<Vec<(usize, i32, SubStream)>>>, // (task index, id, stream)
+    qstreams: Rc<RefCell<Vec<(i32, QStream, Vec<i32>)>>>, // (id, stream of a query subscriber that stays, values read so far)
     broker: DataBroker,
 }
 
 /// task kinds: 1 update(id, value)  2 subscribe(id)  3 subscribe_query(id)  4 housekeeping
 ///             5 provide(id, id2 or -1)  6 actuate(id)  7 batch(id, id2)  8 add_entry(name index)
 ///             9 get(id)  10 shutdown  11 subscribe(id) and drop the stream  12 subscribe_query(id) and drop the stream
+///             13 subscribe_query(id), the subscriber stays and reads lazily (only when nothing else can move, and
+///                at the end)  14 burst(id, first value): twelve updates of one signal in a row
 fn make(spec: &[(Tok, Tok, Tok)], on_change: bool) -> Scenario {
     let b = setup(if on_change { ChangeType::OnChange } else { ChangeType::Continuous });
     // an owner for actuator 2 so that actuate/batch on it can succeed
@@ -191,10 +195,12 @@ fn make(spec: &[(Tok, Tok, Tok)], on_change: bool) -> Scenario {
         b.authorized_access(&ALLOW_ALL).provide_actuation(vec![2], prov()).await.unwrap();
     }));
     let streams: Rc<RefCell<Vec<(usize, i32, SubStream)>>> = Rc::new(RefCell::new(Vec::new()));
+    let qstreams: Rc<RefCell<Vec<(i32, QStream, Vec<i32>)>>> = Rc::new(RefCell::new(Vec::new()));
     let mut tasks: Vec<Task> = Vec::new();
     for (k, &(kind, x, y)) in spec.iter().enumerate() {
         let bb = b.clone();
         let st = streams.clone();
+        let qst = qstreams.clone();
         let t: Task = match kind {
             1 => Box::pin(async move {
                 let a = bb.authorized_access(&ALLOW_ALL);
@@ -272,6 +278,28 @@ fn make(spec: &[(Tok, Tok, Tok)], on_change: bool) -> Scenario {
                 let name = ["Vehicle.A", "Vehicle.B", "Vehicle.C"][(x as usize) % 3];
                 a.subscribe_query(&format!("SELECT {name}")).await.is_ok() as Tok
             }),
+            13 => Box::pin(async move {
+                let a = bb.authorized_access(&ALLOW_ALL);
+                let idx = (x as usize) % 3;
+                let name = ["Vehicle.A", "Vehicle.B", "Vehicle.C"][idx];
+                match a.subscribe_query(&format!("SELECT {name}")).await {
+                    Ok(s) => {
+                        qst.borrow_mut().push((idx as i32, Box::pin(s), Vec::new()));
+                        1
+                    }
+                    Err(_) => 0,
+                }
+            }),
+            14 => Box::pin(async move {
+                let a = bb.authorized_access(&ALLOW_ALL);
+                let mut ok = 1;
+                for v in 0..12 {
+                    if a.update_entries([(x as i32, upd((y + v) as i32))]).await.is_err() {
+                        ok = 0;
+                    }
+                }
+                ok
+            }),
             _ => Box::pin(async move {
                 bb.shutdown().await;
                 1
@@ -279,7 +307,7 @@ fn make(spec: &[(Tok, Tok, Tok)], on_change: bool) -> Scenario {
         };
         tasks.push(t);
     }
-    Scenario { tasks, streams, broker: b }
+    Scenario { tasks, streams, qstreams, broker: b }
 }
 
 /// runs under a schedule prefix, then lowest-index-first; returns outcome, the schedule actually
@@ -332,6 +360,11 @@ fn run(spec: &[(Tok, Tok, Tok)], on_change: bool, prefix: &[usize], rng: &mut Op
             if progressed.is_some() {
                 break;
             }
+        }
+        if progressed.is_none() && drain_queries(&sc) > 0 {
+            // nothing could move, but a lazy query subscriber had unread responses: it reads them now (clients
+            // keep draining their streams), which may unblock a writer waiting for room in its channel
+            continue;
         }
         match progressed {
             None => {
@@ -406,7 +439,20 @@ fn run(spec: &[(Tok, Tok, Tok)], on_change: bool, prefix: &[usize], rng: &mut Op
             seqs.push((*id, seq));
         }
     }
+    drain_queries(&sc);
     if !had_shutdown {
+        for (id, _st, seq) in sc.qstreams.borrow().iter() {
+            let stored = block_on(Box::pin(async {
+                sc.broker.authorized_access(&ALLOW_ALL).get_datapoint(*id).await.map(|d| d.value)
+            }));
+            let stored = match stored {
+                Ok(DataValue::Int32(v)) => v,
+                _ => -1,
+            };
+            if seq.last().copied().unwrap_or(-2) != stored {
+                verdict = vec![2, *id as Tok, seq.last().copied().unwrap_or(-2) as Tok, stored as Tok];
+            }
+        }
         for (id, seq) in &seqs {
             let stored = block_on(Box::pin(async {
                 sc.broker.authorized_access(&ALLOW_ALL).get_datapoint(*id).await.map(|d| d.value)
@@ -437,6 +483,21 @@ fn run(spec: &[(Tok, Tok, Tok)], on_change: bool, prefix: &[usize], rng: &mut Op
     }
     std::mem::forget(sc);
     (Outcome::Done(res), taken, branches, verdict)
+}
+
+/// a lazy query subscriber reads what is waiting for it; returns the number of responses read
+fn drain_queries(sc: &Scenario) -> usize {
+    let mut n = 0;
+    for (_id, st, seq) in sc.qstreams.borrow_mut().iter_mut() {
+        while let Some(Some(r)) = st.next().now_or_never() {
+            n += 1;
+            seq.push(match r.fields.first().map(|f| &f.value) {
+                Some(DataValue::Int32(v)) => *v,
+                _ => -1,
+            });
+        }
+    }
+    n
 }
 
 /// fam 12 line: mode limit seed onchange ntasks (kind a b)* [schedule...]
